@@ -114,18 +114,23 @@ def stepLine (line : String) : String :=
       let pathS := g "path"
       let parsePath : Bytes → Option String := fun _ => if pathS == "bad" || pathS == "-" then none else some pathS
       let C : Crypto := {
-        verify := fun _ _ _ => g "ver" == "1"
+        -- key 1 = the key extracted from record / name, key 3 = the key the key book holds for the name
+        verify := fun pk _ _ => if pk == 3 then g "bookver" == "1" else g "ver" == "1"
         parseKey := fun _ => if g "pkparse" == "ok" then some 1 else none
         nameOf := fun _ => if g "nameof" == "same" then 1 else 2
         inlineKey := fun _ => if g "inline" == "ok" then some 1 else none }
       let vv := validatorValidate C decode parseTime now name rawLen pb
+      -- Validator with an empty key book, and with a key book that holds the key of the name
+      let vve := validatorValidateKB C decode parseTime now (some fun _ => none) name rawLen pb
+      let vvk := validatorValidateKB C decode parseTime now
+        (some fun _ => if g "bookver" == "-" then none else some 3) name rawLen pb
       match unmarshal decode rawLen pb with
-      | .error e => pure s!"unm={showErr e} vv={showU vv}"
+      | .error e => pure s!"unm={showErr e} vv={showU vv} vve={showU vve} vvk={showU vvk}"
       | .ok rec =>
         let vwn := match name with
           | some n => showU (validateWithName C decode parseTime now rec n)
           | none => "-"
-        pure s!"unm=ok vwn={vwn} vv={showU vv} seq={showX (sequence rec)} ttl={showX (ttl rec)} vt={showX (validityType rec)} eol={showX (validity parseTime rec)} val={showX (value parsePath rec)}"
+        pure s!"unm=ok vwn={vwn} vv={showU vv} vve={showU vve} vvk={showU vvk} seq={showX (sequence rec)} ttl={showX (ttl rec)} vt={showX (validityType rec)} eol={showX (validity parseTime rec)} val={showX (value parsePath rec)}"
     r.getD "bad-op"
   | _ => "bad-op"
 
